@@ -307,4 +307,30 @@ Section Sentinels.
       + split; congruence.
     - injection H as _ _ _ <-. unfold keys. split; discriminate.
   Qed.
+
+  (* the state preconditions of PauseJob / ResumeJob go by the Suspended flag of the registered entry alone, whatever its
+     fire time is: an ACTIVE entry whose trigger returned math.MaxInt64 (the value suspended entries are parked at) is
+     not taken for a suspended one -- PauseJob does not fail on it, ResumeJob answers ErrJobIsActive -- and a suspended
+     entry is recognised at any priority a foreign writer may have given it *)
+  Lemma state_errors_by_flag : forall now k q ts x, q_wf O q -> q_get O k q = Some x ->
+    (forall q' ts' evs res, api O tstate nft now (OpPause (Some k)) q ts = (q', ts', evs, res) ->
+       forall e, res = RErr e <-> (e_susp x = true /\ e = ESent SJobIsSuspended)) /\
+    (forall q' ts' evs res, api O tstate nft now (OpResume (Some k)) q ts = (q', ts', evs, res) ->
+       (e_susp x = false -> res = RErr (ESent SJobIsActive)) /\
+       (res = RErr (ESent SJobIsActive) -> e_susp x = false)).
+  Proof.
+    intros now k q ts x Hwf G. split; intros q' ts' evs res H.
+    - intro e. rewrite (sentinel_iff now _ q ts q' ts' evs res Hwf H e). simpl. rewrite G.
+      destruct (e_susp x); split.
+      + intro E. injection E as <-. split; reflexivity.
+      + intros [_ ->]. reflexivity.
+      + discriminate.
+      + intros [E _]. discriminate.
+    - pose proof (sentinel_iff now _ q ts q' ts' evs res Hwf H (ESent SJobIsActive)) as S. simpl in S. rewrite G in S.
+      destruct (e_susp x); simpl in S; split.
+      + discriminate.
+      + intro E. apply S in E. destruct (snd (nft (e_tid x) (ts (e_tid x)) now)); discriminate.
+      + intros _. apply S. reflexivity.
+      + reflexivity.
+  Qed.
 End Sentinels.
